@@ -47,14 +47,26 @@ class Driver(object):
         from clikit.api.event import Event
 
         ev = {"op": op["op"], "ev": op.get("ev", ""), "prio": op.get("prio", 0), "stops": op.get("stops", False),
+              "spawn": {"ev": "", "prio": 0},
               "id": op.get("id", 0), "calls": [], "ids": [], "all": {e: [-1] for e in EVENTS}, "r": False}
         k = op["op"]
         if k == "add":
             lid = len(self.listeners) + 1
             stops = op["stops"]
+            spawn = op.get("spawn") or {"ev": "", "prio": 0}
+            ev["spawn"] = spawn
 
-            def listener(event, name, disp, _lid=lid, _stops=stops):
+            def listener(event, name, disp, _lid=lid, _stops=stops, _spawn=spawn):
                 self.called.append(_lid)
+                if _spawn["ev"]:
+                    # a listener that registers another (plain) listener while the dispatch is running
+                    nid = len(self.listeners) + 1
+
+                    def child(event2, name2, disp2, _nid=nid):
+                        self.called.append(_nid)
+
+                    self.listeners.append(child)
+                    disp.add_listener(_spawn["ev"], child, _spawn["prio"])
                 if _stops:
                     event.stop_propagation()
 
@@ -121,12 +133,17 @@ def run(ctx):
         "add_event_listener) are validated by DispatcherTrace.  Non-trivial: the sequence dispatches an event after a "
         "registration that follows an earlier dispatch/get of the same event, or holds >= 2 listeners of one event"
     )
-    ctx.assumptions += ["each registration uses a distinct callable", "listeners do not register listeners during a dispatch"]
+    ctx.assumptions += ["each registration uses a distinct callable", "a listener registered by a listener during a dispatch takes part from the next dispatch on (registrations 'so far' = at the start of the dispatch); listeners registered that way do not register further ones"]
     ctx.model(SPEC, "MC_Dispatcher", "MC_Dispatcher_bfs_%s.cfg" % ctx.tier, name="state-space")
     beh = {}
     r = ctx.model(SPEC, "MC_Dispatcher", "MC_Dispatcher_seq_%s.cfg" % ctx.tier, name="all-sequences")
     for b in T.emitted(r):
         beh[json.dumps(b, sort_keys=True)] = b
+    r = ctx.model(SPEC, "MC_Dispatcher", "MC_Dispatcher_seq_spawn.cfg", name="all-sequences-with-registering-listeners")
+    for b in T.emitted(r):
+        beh[json.dumps(b, sort_keys=True)] = b
+    if not quick:
+        ctx.model(SPEC, "MC_Dispatcher", "MC_Dispatcher_bfs_spawn.cfg", name="state-space-with-registering-listeners", timeout=2400)
     nseq = len(beh)
     r = ctx.model(SPEC, "MC_Dispatcher", "MC_Dispatcher_sim.cfg", name="simulate", simulate="num=%d" % (60 if quick else 600),
                   depth=15, workers=1, seed=ctx.seed % 100000)
@@ -184,7 +201,8 @@ def random_ops(rng, n):
     for _ in range(n):
         x = rng.random()
         if x < 0.4:
-            ops.append({"op": "add", "ev": rng.choice(EVENTS), "prio": rng.choice([-5, -1, 0, 0, 1, 5, 100]), "stops": rng.random() < 0.2})
+            sp = {"ev": rng.choice(EVENTS), "prio": rng.choice([-5, 0, 5])} if rng.random() < 0.15 else {"ev": "", "prio": 0}
+            ops.append({"op": "add", "ev": rng.choice(EVENTS), "prio": rng.choice([-5, -1, 0, 0, 1, 5, 100]), "stops": rng.random() < 0.2, "spawn": sp})
             nl += 1
         elif x < 0.7:
             ops.append({"op": "dispatch", "ev": rng.choice(EVENTS), "own": rng.random() < 0.5})
